@@ -434,6 +434,11 @@ public:
 
         theRHS.m_blockIndex.swap(m_blockIndex);
         theRHS.m_freeBlockVector.swap(m_freeBlockVector);
+
+        // The blocks are of the size of the instance which created them...
+        const size_type     tempBlockSize = m_blockSize;
+        m_blockSize = theRHS.m_blockSize;
+        theRHS.m_blockSize = tempBlockSize;
     }
 
     XalanDeque&
@@ -517,7 +522,7 @@ private:
 
     MemoryManager*      m_memoryManager;
 
-    const size_type     m_blockSize;
+    size_type           m_blockSize;
 
     BlockIndexType	    m_blockIndex; 
     BlockIndexType	    m_freeBlockVector;
